@@ -51,7 +51,7 @@ func c03Run(c *Ctx) {
 	d := GenDecl(c.Sub("d"), c03Cfg(opts))
 	if inHistTail(c, 48000, 2400000) {
 		// options registered late must be consumed, not conserved
-		histCase(c, d, []string{"late-group-on-command", "late-group-on-ancestor", "late-group-in-group"}, []string{"parse", "help"})
+		histCase(c, d, []string{"late-group-on-command", "late-group-on-ancestor", "late-group-in-group", "alias-added", "command-renamed"}, []string{"parse", "help"})
 		return
 	}
 	b := d.Build()
